@@ -11,8 +11,9 @@ State: the map model and the two repair switches (`mode`).  Common commands (→
   size <n>                            → `mm.map_size = n`                           → ok <dump> | error
   elevs <e0,e1,…>                     → tile k gets elevation e_k (length must match) → ok | error
   dump                                → <dump>
+  push / pop                          → save / restore the manager state (depth-first exploration of histories) → ok
 <dump> = size=<s> len=<l> tiles=<tid:elev:layer:i:x:y,…>   (x:y = tile.xy or E:E when it raises)
-         for more than 400 tiles `hash=<h>` replaces `tiles=…` (polynomial hash of the same integers).
+         for more than 64 tiles `hash=<h>` replaces `tiles=…` (polynomial hash of the same integers).
 -/
 open Driver Aoe.Map
 
@@ -22,6 +23,7 @@ structure St where
   m : Map
   fixIdx : Bool
   fixSingle : Bool
+  stack : List Map := []
 
 def init : St := { m := { size := 0, tiles := [] }, fixIdx := false, fixSingle := false }
 
@@ -42,7 +44,7 @@ def showTile (m : Map) (t : Tile) : String :=
 
 def dump (m : Map) : String :=
   let head := s!"size={m.size} len={m.tiles.length}"
-  if m.tiles.length > 400 then
+  if m.tiles.length > 64 then
     let h := m.tiles.foldl (fun h t => (tileInts m t).foldl hashStep h) 0
     s!"{head} hash={h}"
   else
@@ -90,6 +92,11 @@ def stepCommon (s : St) (line : String) : Option (St × String) :=
       else some (s, "error")
     | none => some (s, "bad-op")
   | ["dump"] => some (s, dump s.m)
+  | ["push"] => some ({ s with stack := s.m :: s.stack }, "ok")
+  | ["pop"] =>
+    match s.stack with
+    | m :: rest => some ({ s with m := m, stack := rest }, "ok")
+    | [] => some (s, "error")
   | _ => none
 
 end MapDrv
